@@ -1,7 +1,9 @@
 """C09 - equivalence conversions are mutually inverse, pure, and match their formulas."""
+import ast
 import contextlib
 import io
 import itertools
+import sys
 
 import numpy as np
 
@@ -17,8 +19,13 @@ MANIFEST = dict(
           "forms equal copy forms, and uncovered requests raise InvalidUnitEquivalence. Input unit scales are concrete table units; the "
           "target may be a user-defined unit whose scale is a z3 real (all positive scales at once). The same battery is re-proved "
           "after every enumerated history of 1-3 earlier requests in one process state (successful, refused and failing copying / "
-          "in-place requests, on the same and on a sibling equivalence). The dtype axis (all integer widths, float32; array and 0-d "
-          "quantity) runs on real typed buffers with enumerated values: there only the target scale and mu, gamma are symbolic."),
+          "in-place requests, on the same and on a sibling equivalence). The dtype axis (all integer widths, float32 and float64 itself; "
+          "array and 0-d quantity) runs on real typed buffers with enumerated values: there only the target scale and mu, gamma are "
+          "symbolic. The size axis asks whether the amount of data changes the route: symbolic payloads of 1, 2, 3, 5/17 and 2x3 "
+          "elements; real float64/float32/int64 buffers of 1025, 2**16+1, 2**20+1 elements and of t, t+1 elements for every integer "
+          "constant t in the current source of the anchored modules (enumerated numbers, purity decided on every byte); and every "
+          "module-/class-level integer constant the library's code refers to is re-bound to 2, so that its large-input route runs on "
+          "the symbolic payloads."),
     design="DESIGN.md section 4 C09",
     technique="symbolic execution of the real Python code over z3 real terms; SMT (QF_NRA, root witnesses) obligations per path; counterexample replay")
 EXPLANATION = (
@@ -39,7 +46,20 @@ EXPLANATION = (
     "quantity, with values over the decades the dtype (and its square / fourth power where the formula has one) holds exactly: the "
     "integer loops of multiply/power/reciprocal and the casts of out= buffers run as in production; copying forms are checked "
     "against the formula for all target scales and all mu, gamma, must leave dtype, bytes and unit of the input untouched; in-place "
-    "forms on 8-byte buffers must equal the copying form and the formula (concrete table target, mu = 1.25, gamma = 1.5)."
+    "forms on 8-byte buffers must equal the copying form and the formula (concrete table target, mu = 1.25, gamma = 1.5). "
+    "(4) size: which route a conversion takes may depend on how much data it gets (scratch buffers, blockwise loops, in-place short "
+    "cuts for large inputs). (a) the symbolic payload also has 3, 2x3 and 17 (non-linear formulas: 5) elements, each its own z3 real; "
+    "(b) REAL typed buffers (float64, float32, int64; shapes (n,), (n,1), (2,n/2)) with n = 1025, 2**16+1, 2**20+1 and n = t, t+1 for "
+    "every integer-valued constant 16 <= t <= 2**21 that occurs anywhere in the CURRENT source of unyt/array.py, equivalencies.py, "
+    "unit_object.py (literals and constant expressions such as 1 << 16, folded from the AST at start-up): a tiling of enumerated "
+    "in-domain values, fixed mu/gamma, table target; all copying and in-place entries, there-and-back and via-intermediate are "
+    "checked against the formula (first and last tile, and every element equal to its tile position), and purity is decided on "
+    "every byte of the input (dtype, shape, bytes, unit object) plus np.shares_memory(result, input) == False; (c) every module-level "
+    "or class-level plain integer >= 16 defined in those modules and referred to by name in their code is re-bound to 2 for the "
+    "duration of a case (each constant alone and all together; the configuration is part of the case id `C09/lowthr/<names>/...`): "
+    "the pair battery on 3 and 2 symbolic elements, the symbolic-target case and the typed float64/int64/float32 cases then run "
+    "through the large-input route with all obligations decided by z3 for all values. The unchanged tree defines no such constant, "
+    "so (c) contributes no case on it. Every copying entry of every family also proves that its result shares no memory with its input."
 )
 BOUNDS = {
     "quick": "9 equivalences x all ordered dimension pairs x a covering subset of input/target table units x 9 entry points; "
@@ -47,15 +67,24 @@ BOUNDS = {
              "symbolic-scale target: every ordered pair x 1 input unit x 8 entry points; histories: every step kind once on the same and "
              "once on a sibling equivalence for all 9 equivalences (probed direction/units rotate), all 256 ordered pairs of step kinds for "
              "thermal and a rotating 1/16 slice of them for the other 8, 98 three-step histories (failing in-place request first) for thermal; "
-             "dtype: {int64, int32, uint8, float32, uint64} x every ordered pair (int64: every unit of the cover, others rotate) x "
-             "{array of <= 5 values, 0-d quantity} (int64 both, the others alternate) x 5 copying entries and there-and-back (+ 3 in-place entries for 8-byte dtypes)",
+             "dtype: {int64, float64, int32, uint8, float32, uint64} x every ordered pair (int64: every unit of the cover, others rotate) x "
+             "{array of <= 5 values, 0-d quantity} (int64 and float64 both, the others alternate) x 5 copying entries (table target with fixed "
+             "keywords, then symbolic-scale target) and there-and-back (+ 3 in-place entries for 8-byte dtypes); "
+             "size: symbolic-scale target with one of the shapes (3,), (2,3), (17,) [non-linear: (5,)] per ordered pair; real buffers: float64 x "
+             "2**20+1 elements for every ordered pair plus two rotating points of {float64, float32, int64} x {1025, 2**16+1, 2**20+1, t, t+1 "
+             "for the integer constants t of the current source (unchanged tree: 16, 128, 2049, 10000)}, shape forms and units rotate; "
+             "lowered constants (none on the unchanged tree): per ordered pair the pair battery on 3 symbolic elements and the typed "
+             "float64/int64/float32 cases, each constant alone (sharing the pairs) and all together",
     "thorough": "9 equivalences x all ordered dimension pairs x all enumerated input x target table units (3-4 per dimension) x 9 entry "
                 "points x scalar and 2-element payloads; all ordered triples of spectral and sound_speed; full uncovered-request matrix; "
                 "symbolic-scale target: every ordered pair x every input unit x both shapes; histories: every step kind on same/sibling "
                 "equivalence x up to 4 ordered pairs, all 256 ordered pairs of step kinds for thermal and number_density and the 49 pairs of "
                 "the 7 core kinds for the other seven, all 343 three-step histories of the core kinds for thermal and 98 for mass_energy, "
-                "number_density; dtype: 8 integer dtypes + float32 x every ordered pair ({int64, int32, uint8, float32}: every unit of "
-                "the cover, the other five rotate through it)",
+                "number_density; dtype: 8 integer dtypes + float32 + float64 x every ordered pair ({int64, float64, int32, uint8, float32}: every unit of "
+                "the cover, the other five rotate through it); size: symbolic-scale target x all of (3,), (2,3), (17,) [non-linear: (5,)] per "
+                "ordered pair; real buffers: every point of {float64, float32, int64} x {1025, 2**16+1, 2**20+1, t, t+1 for the source's constants} "
+                "for every ordered pair (units and shape forms rotate); lowered constants: pair battery on 3 and 2 elements, symbolic-target "
+                "case on 3 elements and the typed cases over every unit of the cover, each constant alone and all together",
 }
 OUTSIDE = ("IEEE rounding/overflow (A1: e.g. gamma-1 underflow for v << c); the INPUT unit's scale is a concrete table value "
            "(the _convert bodies cancel same-dimension units through sympy, which cannot hold z3 terms); values outside the formula's domain "
@@ -64,11 +93,18 @@ OUTSIDE = ("IEEE rounding/overflow (A1: e.g. gamma-1 underflow for v << c); the 
            "typed buffers are an enumeration over decades (a typed buffer cannot hold a term), integers whose square / fourth power "
            "overflows their dtype, in-place requests on buffers narrower than 8 bytes (they become float32/float16, whose range the "
            "constants exceed; 1-byte buffers have no float of their size), float16, complex, bool, longdouble payloads; histories longer "
-           "than 3 earlier requests or mixing more than two equivalences; state carried across processes or threads")
+           "than 3 earlier requests or mixing more than two equivalences; state carried across processes or threads; size axis: payloads of "
+           "more than 2**20+1 elements (2**21+1 where the source names such a constant), symbolic payloads of more than 17 elements (an object "
+           "array costs about 0.1 ms per element and operation, so the numbers of the large buffers are enumerated, not symbolic: tiled decades, "
+           "fixed mu/gamma, table target); size limits the library computes at run time instead of writing them down as an integer "
+           "constant are met only if they lie below the top of the ladder; constants kept in containers (dict/tuple values) are not re-bound, "
+           "only walked as real sizes")
 CONFORM = {"quick": 48, "thorough": 96}
 ASSUMPTIONS = [
     "C09: input unit scales are the concrete table values (value symbols are written as SI magnitude / scale); the SI magnitude of a result is value * Unit.base_value (minus base_offset for degC/degF targets), read from the Unit object, never through unyt's conversion code; for the user-defined target unit it is value * the scale symbol the harness registered",
     "C09: typed (integer, float32) payloads carry enumerated values; the 1e-6 band of the obligations covers the float64 rounding of the real run (float32 inputs: the rounding of their own 4-byte intermediates, values chosen exactly representable)",
+    "C09: size axis: the large typed buffers hold a tiling of <= 5 enumerated values, so the formula is decided on the first and the last tile and every other element is required to equal the element at its tile position (1e-6 band); purity is compared byte by byte with a reference buffer that is never handed to unyt",
+    "C09: lowered-constant configurations re-bind plain integer module/class attributes of unyt.array, unyt.equivalencies, unyt.unit_object to 2 inside the case (shimmed library and replay alike); the claim made there is about the library WITH that binding",
     "C09: the constants of the closed-form oracle are read from unyt.physical_constants at run time as value * unit scale",
     "C09: lorentz obligations grant the 1e-6 band either to the value or to its image (forward or backward error): gamma(v) for v -> c and v(gamma) for gamma -> 1 have unbounded condition numbers, so the float rounding of a unit factor (e.g. 0.01 for percent) is amplified without bound in exact arithmetic",
     "C09: an input on an offset temperature scale (degC, degF) may be refused with a unit exception (the formulas are documented for absolute scales); a returned value must be the formula of the absolute temperature",
@@ -235,42 +271,58 @@ COPY_ENTRIES = ["to", "in_units", "to_equivalent", "to_value", "Equivalence.conv
 INPLACE_ENTRIES = ["convert_to_units", "convert_to_equivalent", "Equivalence(in_place).convert"]
 
 
-def run_entry(ctx, q, ustr, eq, kw, entry):
-    """one request through one entry point; returns (flat values, result unit or None, the object holding the result)"""
+def request(ctx, q, ustr, eq, kw, entry):
+    """one request through one entry point; returns the object holding the result (None: the entry point returned nothing)"""
     unyt = ctx.mods["unyt"]
     if entry == "to":
-        r = q.to(ustr, equivalence=eq, **kw)
-    elif entry == "in_units":
-        r = q.in_units(ustr, equivalence=eq, **kw)
-    elif entry == "to_equivalent":
-        r = q.to_equivalent(ustr, eq, **kw)
-    elif entry == "to_value":
-        r = q.to_value(ustr, equivalence=eq, **kw)
-        return elements(r), None, r
-    elif entry == "Equivalence.convert":
+        return q.to(ustr, equivalence=eq, **kw)
+    if entry == "in_units":
+        return q.in_units(ustr, equivalence=eq, **kw)
+    if entry == "to_equivalent":
+        return q.to_equivalent(ustr, eq, **kw)
+    if entry == "to_value":
+        return q.to_value(ustr, equivalence=eq, **kw)
+    if entry == "Equivalence.convert":
         tgt = unyt.Unit(ustr, registry=q.units.registry)
         r = ctx.mods["UE"].equivalence_registry[eq]().convert(q, tgt.dimensions, **kw)
-        if r is None:
-            return None, None, None
-        r = r.in_units(tgt)
-    elif entry == "convert_to_units":
-        r = q
+        return None if r is None else r.in_units(tgt)
+    if entry == "convert_to_units":
         q.convert_to_units(ustr, equivalence=eq, **kw)
-    elif entry == "convert_to_equivalent":
-        r = q
+        return q
+    if entry == "convert_to_equivalent":
         q.convert_to_equivalent(ustr, eq, **kw)
-    elif entry == "Equivalence(in_place).convert":
+        return q
+    if entry == "Equivalence(in_place).convert":
         tgt = unyt.Unit(ustr, registry=q.units.registry)
         r0 = ctx.mods["UE"].equivalence_registry[eq](in_place=True).convert(q, tgt.dimensions, **kw)
         if r0 is None:
-            return None, None, None
+            return None
         # what convert_to_equivalent does: the converted data are in q itself; the returned wrapper must say the same
-        ctx.require("in-place convert: returned wrapper == mutated input", And(all_exact(payload(r0), payload(q)), r0.units == q.units, str(r0.units) == str(q.units)))
-        r = q
+        same = (np.array_equal(np.asarray(r0.d), np.asarray(q.d)) if np.asarray(q.d).dtype != object else all_exact(payload(r0), payload(q)))
+        ctx.require("in-place convert: returned wrapper == mutated input", And(same, r0.units == q.units, str(r0.units) == str(q.units)))
         q.convert_to_units(tgt)
-    else:
-        raise KeyError(entry)
+        return q
+    raise KeyError(entry)
+
+
+def run_entry(ctx, q, ustr, eq, kw, entry):
+    """one request through one entry point; returns (flat values, result unit or None, the object holding the result)"""
+    r = request(ctx, q, ustr, eq, kw, entry)
+    if r is None:
+        return None, None, None
+    if entry == "to_value":
+        return elements(r), None, r
     return payload(r), r.units, r
+
+
+def independent(r, q):
+    """the result of a copying form is an object of its own that shares no memory with the input (a later edit of either one
+    must not show in the other)"""
+    if r is q:
+        return False
+    if isinstance(r, np.ndarray) and isinstance(q, np.ndarray):
+        return not np.shares_memory(np.asarray(r), np.asarray(q))
+    return True
 
 
 def unit_is(ctx, u, ustr):
@@ -339,7 +391,7 @@ def pair_battery(ctx, eq, da, db, ua, ub, shape):
         ctx.require(f"formula/{e}", And(*[formula_holds(eq, da, db, xi, y * sb, K, mu, gamma) for xi, y in zip(si_in, vals)]), entry=e)
         if u is not None:
             ctx.require(f"unit/{e}", unit_is(ctx, u, ub), got=str(u))
-            ctx.require(f"fresh object/{e}", r is not q)
+        ctx.require(f"fresh object/{e}", independent(r, q))
         if ref is None:
             ref = vals
         else:
@@ -723,7 +775,9 @@ def make_call_history_case(eq, da, db, ua, ub, steps, shape=()):
 # --------------------------------------------------------------------------- dtype axis: real typed buffers (integers, float32)
 
 INT_DTYPES = ["int64", "int32", "uint8", "uint64", "int16", "uint32", "int8", "uint16"]
-TYPED_DTYPES = INT_DTYPES[:3] + ["float32"] + INT_DTYPES[3:]
+# float64 itself is on the axis: a real float buffer, not the object payload that stands for it (assumption A5 says both take the
+# same branches - a gate on dtype.kind / dtype == float64 in a changed library is exactly where that stops being true)
+TYPED_DTYPES = ["int64", "float64"] + INT_DTYPES[1:3] + ["float32"] + INT_DTYPES[3:]
 DECADES = [0, 1, 2, 3, 5, 7, 10, 30, 100, 300, 1000, 10**4, 10**5, 10**6, 10**7, 10**8, 10**9, 10**12, 10**15, 10**18]
 HALVES = [0.25, 0.5, 1.5, 2.5]  # float dtypes only (exactly representable)
 FIXED_KW = {"mu": 1.25, "gamma": 1.5}  # in-place requests on typed buffers: a float buffer cannot hold a term
@@ -754,7 +808,7 @@ def typed_values(eq, da, sa, dt, K):
     cand = list(DECADES)
     if dt.kind == "f":
         cand = sorted(cand + HALVES)
-        top = 2.0 ** (11 if dt.itemsize == 2 else 24)  # integers up to here are exact
+        top = 2.0 ** {2: 11, 4: 24}.get(dt.itemsize, 53)  # integers up to here are exact
         cand = [v for v in cand if v <= top and float(v) ** deg <= 1e30]
     else:
         top = int(np.iinfo(dt).max)
@@ -763,6 +817,12 @@ def typed_values(eq, da, sa, dt, K):
     if len(cand) > 5:
         cand = cand[:2] + [cand[len(cand) // 2]] + cand[-2:]
     return cand
+
+
+def typed_untouched(unyt, q, buf, dtype, u0, ua):
+    """dtype, bytes, shape and unit (the very object, and its spelling) of a typed input are what they were before the request"""
+    return bool(q.dtype == dtype and q.units is u0 and str(q.units) == str(unyt.Unit(ua))
+                and np.array_equal(np.asarray(q.d).ravel(), buf.ravel()))
 
 
 def make_dtype_case(eq, da, db, ua, ub, dt, forms=("array", "scalar")):
@@ -792,11 +852,20 @@ def make_dtype_case(eq, da, db, ua, ub, dt, forms=("array", "scalar")):
                 vs = [vs[len(vs) // 2]]
 
             def fresh(vals, registry=None):
-                buf = np.array(vals, dtype=dtype)
+                buf = np.array(vals, dtype=dtype)  # the reference the input is compared with afterwards: never handed to unyt
                 if form == "scalar":
                     return unyt.unyt_quantity(buf[0], ua, registry=registry), buf
-                return unyt.unyt_array(buf, ua, registry=registry), buf
+                return unyt.unyt_array(buf.copy(), ua, registry=registry), buf  # unyt_array(ndarray) is a view of what it is given
             si_in = [float(v) * sa for v in vs]
+            # ---- copying forms, table target, fixed keywords: all numbers are concrete, so purity and the independence of the
+            # result are settled first (whatever a changed library does with a term it cannot store in a typed buffer later on)
+            for e in COPY_ENTRIES:
+                q, buf = fresh(vs)
+                u0 = q.units
+                r = request(ctx, q, ub, eq, kw_fix, e)
+                ctx.require(f"returns a value/table target/{e}/{form}", r is not None and np.size(r) == len(vs))
+                ctx.require(f"input untouched/table target/{e}/{form}", typed_untouched(unyt, q, buf, dtype, u0, ua), now=repr(q)[:120])
+                ctx.require(f"fresh object/table target/{e}/{form}", r is not None and independent(r, q))
             # ---- copying forms, target unit of ANY positive scale
             ref = None
             for e in COPY_ENTRIES:
@@ -811,13 +880,12 @@ def make_dtype_case(eq, da, db, ua, ub, dt, forms=("array", "scalar")):
                             entry=e, dtype=dt, values=vs)
                 if u is not None:
                     ctx.require(f"unit/{e}/{form}", And(exact_eq(u.base_value, st), str(u) == XT, u.dimensions == want_xt.dimensions, u.base_offset == 0.0), got=str(u))
-                    ctx.require(f"fresh object/{e}/{form}", r is not q)
+                ctx.require(f"fresh object/{e}/{form}", independent(r, q))
                 if ref is None:
                     ref = vals
                 else:
                     ctx.require(f"entry points agree/{e}/{form}", all_close(vals, ref))
-                ctx.require(f"input untouched/{e}/{form}", q.dtype == dtype and q.units is u0 and str(q.units) == str(unyt.Unit(ua))
-                            and np.array_equal(np.asarray(q.d).ravel(), buf.ravel()), now=repr(q)[:120])
+                ctx.require(f"input untouched/{e}/{form}", typed_untouched(unyt, q, buf, dtype, u0, ua), now=repr(q)[:120])
             # ---- table target unit: copying reference, then the in-place forms on the typed buffer
             vi = vs
             si_i = [float(v) * sa for v in vi]
@@ -882,6 +950,8 @@ def make_symtarget_case(eq, da, db, ua, shape):
                 ctx.require(f"unit/{e}", And(exact_eq(u.base_value, st), str(u) == XT, u.dimensions == want.dimensions, u.base_offset == 0.0), got=str(u))
             if e in INPLACE_ENTRIES:
                 ctx.require(f"in-place is in place/{e}", r is c)
+            else:
+                ctx.require(f"fresh object/{e}", independent(r, q))
             if ref is None:
                 ref = vals
             else:
@@ -890,6 +960,251 @@ def make_symtarget_case(eq, da, db, ua, shape):
 
     return Case(f"C09/symtarget/{eq}/{da}>{db}/{ua}>{XT}/{shape_tag(shape)}", h, bounds="symbolic: value(s), mu, gamma, scale of the target unit",
                 budget_s=1800 if eq in NONLINEAR else 600, weight=20 if eq == "lorentz" else (5 if eq in NONLINEAR else 1))
+
+
+# --------------------------------------------------------------------------- size axis: how many elements the payload has
+#
+# A conversion may take another route for "large" inputs (a scratch buffer, a chunked loop, an in-place short cut). Two nets:
+#  (1) REAL sizes on REAL typed buffers (float64, float32, int64): a fixed ladder 2**k + 1 up to 2**20 + 1 elements - one element
+#      more than a power of two, so a chunked loop has a partial tail - plus t and t + 1 for every integer constant t found in the
+#      CURRENT source of the anchored modules (so a literal threshold or a band `a <= size < b` written in the code is met on both
+#      sides). Object arrays of 10**6 terms are out of reach (about 0.1 ms per element and operation), so the numbers are an
+#      enumeration here, as on the dtype axis: in-domain values over the decades, tiled.
+#  (2) module-level / class-level integer constants of the anchored modules that their code refers to by name are re-bound to
+#      LOW = 2 for the duration of a case (stated as part of the configuration in the case id): the large-input route then runs on
+#      the 2- and 3-element symbolic payloads of the pair battery and on the typed buffers of the dtype axis, all obligations
+#      decided by z3 for all values as everywhere else. The unchanged tree has no such constant, so this configuration is empty on it.
+
+ANCHORED = ("unyt.array", "unyt.equivalencies", "unyt.unit_object")
+SIZE_DTYPES = ["float64", "float32", "int64"]
+LADDER = [1025, 2**16 + 1, 2**20 + 1]
+SIZE_CAP = 2**21  # constants of the source above this are not walked as real sizes (16 MB of float64 per operand and temporary)
+LOW = 2
+BIG_SHAPES = [(3,), (2, 3), (17,)]  # symbolic payloads beyond the scalar / 2-element ones of the batteries
+BIG_SHAPES_NONLINEAR = [(3,), (2, 3), (5,)]  # one root witness per element and entry point: 17 of them cost minutes
+SIZE_FORMS = ("1d", "col", "2row")  # (n,), (n, 1) [len == size], (2, ceil(n/2)) [len == 2]
+
+
+def _fold(n):
+    """value of an integer-valued constant expression of the source (1 << 16, 2**20, 64 * 1024, 1e5) or None"""
+    if isinstance(n, ast.Constant):
+        v = n.value
+        if type(v) is int:
+            return v
+        if type(v) is float and v.is_integer() and abs(v) < 2.0**62:
+            return int(v)
+        return None
+    if isinstance(n, ast.BinOp):
+        a, b = _fold(n.left), _fold(n.right)
+        if a is None or b is None:
+            return None
+        if isinstance(n.op, ast.LShift) and 0 <= b < 63:
+            return a << b
+        if isinstance(n.op, ast.Pow) and 0 <= b < 63 and abs(a) <= 1024:
+            return a ** b
+        if isinstance(n.op, ast.Mult):
+            return a * b
+        if isinstance(n.op, ast.Add):
+            return a + b
+        if isinstance(n.op, ast.Sub):
+            return a - b
+    return None
+
+
+_SRC = {}
+
+
+def _trees():
+    """ASTs of the anchored modules as loaded in THIS process (the tree under test)"""
+    if not _SRC:
+        for name in ANCHORED:
+            m = sys.modules[name]
+            with open(m.__file__) as f:
+                _SRC[name] = ast.parse(f.read())
+    return _SRC
+
+
+def source_sizes():
+    """t and t + 1 for every integer constant 16 <= t <= SIZE_CAP in the source of the anchored modules"""
+    found = set()
+    for tree in _trees().values():
+        for node in ast.walk(tree):
+            if isinstance(node, (ast.Constant, ast.BinOp)):
+                v = _fold(node)
+                if v is not None and 16 <= v <= SIZE_CAP:
+                    found.add(v)
+    return sorted(found)
+
+
+def size_constants():
+    """(module, class or None, name, value) of the module-level and class-level plain integers >= 16 that are defined in an anchored
+    module and that its code refers to by name: the candidates for 'how large is large'"""
+    out = []
+    for modname, tree in _trees().items():
+        m = sys.modules[modname]
+        used = {n.id for n in ast.walk(tree) if isinstance(n, ast.Name) and isinstance(n.ctx, ast.Load)}
+        used |= {n.attr for n in ast.walk(tree) if isinstance(n, ast.Attribute) and isinstance(n.ctx, ast.Load)}
+        for k, v in sorted(vars(m).items()):
+            if type(v) is int and v >= 16 and k in used and not k.startswith("__"):
+                out.append((modname, None, k, v))
+            if isinstance(v, type) and getattr(v, "__module__", None) == modname:
+                for ck, cv in sorted(vars(v).items()):
+                    if type(cv) is int and cv >= 16 and ck in used and not ck.startswith("__"):
+                        out.append((modname, v.__name__, ck, cv))
+    return out
+
+
+@contextlib.contextmanager
+def lowered(thr, value=LOW):
+    """re-bind the given integer constants of the loaded library (shimmed or plain: whatever sys.modules holds in this process)
+    for the duration of the block; the runner's reset at the start of every path would put them back as well"""
+    saved = []
+    try:
+        for modname, cls, name, _ in thr:
+            owner = sys.modules[modname]
+            if cls is not None:
+                owner = getattr(owner, cls)
+            saved.append((owner, name, getattr(owner, name)))
+            setattr(owner, name, value)
+        yield
+    finally:
+        for owner, name, old in reversed(saved):
+            setattr(owner, name, old)
+
+
+def lowered_case(base, thr, tag):
+    def h(ctx):
+        with lowered(thr):
+            base.fn(ctx)
+
+    return Case("C09/lowthr/" + tag + "/" + base.id.split("/", 1)[1], h, bounds=base.bounds + f"; configuration: {tag} re-bound to {LOW}",
+                budget_s=base.budget_s, weight=base.weight)
+
+
+def thr_tag(thr):
+    return "+".join((f"{c}." if c else "") + f"{n}" for _, c, n, _ in thr)
+
+
+def size_shape(n, form):
+    return {"1d": (n,), "col": (n, 1), "2row": (2, (n + 1) // 2)}[form]
+
+
+def _tiled(tile, shape, dtype):
+    return np.resize(np.array(tile, dtype=dtype), shape)
+
+
+def _uniform(flat, p):
+    """every element equals the element at its position in the first tile (the payload is a tiling of p values; the band covers a
+    last-place difference between the vector and the scalar tail loops of a NumPy kernel)"""
+    flat = np.asarray(flat, dtype=float).ravel()
+    m = (flat.shape[0] // p) * p
+    head = flat[:p]
+    return bool(np.allclose(flat[:m].reshape(-1, p), head, rtol=1e-6, atol=0.0) and np.allclose(flat[m:], head[: flat.shape[0] - m], rtol=1e-6, atol=0.0))
+
+
+def _sample(flat, p):
+    """the first and the last p elements with their tile positions"""
+    flat = np.asarray(flat).ravel()
+    n = flat.shape[0]
+    idx = list(range(min(p, n))) + list(range(max(n - p, 0), n))
+    return [(i % p, flat[i].item()) for i in idx]
+
+
+def make_size_case(eq, da, db, ua, ub, dt, n, form):
+    """the payload is a REAL typed buffer with n elements (n from the ladder and from the constants of the current source): which
+    route a conversion takes may depend on how much data it is given. Everything the property says is re-checked on that buffer:
+    formula, unit, purity (dtype, every byte, unit object), independence of the result, in-place == copy, there-and-back,
+    via-intermediate == direct. Values are a tiling of enumerated in-domain values; mu, gamma fixed; table target."""
+    dtype = np.dtype(dt)
+    inplace_ok = dtype.itemsize == 8
+    shape = size_shape(n, form)
+    third = [d for d in EQ_DIMS[eq] if d not in (da, db)]
+
+    def h(ctx):
+        mods = ctx.mods
+        unyt = mods["unyt"]
+        K = consts(mods)
+        kw = {k: FIXED_KW[k] for k in EQ_KW.get(eq, [])}
+        mu, gamma = kw.get("mu"), kw.get("gamma")
+        sa = float(unyt.Unit(ua).base_value)
+        sb = float(unyt.Unit(ub).base_value)
+        tile = typed_values(eq, da, sa, dtype, K)
+        p = len(tile)
+        ref_buf = _tiled(tile, shape, dtype)  # never handed to unyt
+        size = ref_buf.size
+        si_tile = [float(v) * sa for v in tile]
+
+        def fresh():
+            return unyt.unyt_array(ref_buf.copy(), ua)
+
+        def formula(flat, s_out, dx=da, dy=db):
+            return And(_uniform(flat, p), *[formula_holds(eq, dx, dy, si_tile[k], y * s_out, K, mu, gamma) for k, y in _sample(flat, p)])
+
+        cref = None
+        for e in COPY_ENTRIES:
+            q = fresh()
+            u0 = q.units
+            r = request(ctx, q, ub, eq, kw, e)
+            ok = r is not None and np.size(r) == size and np.shape(r) == shape
+            ctx.require(f"returns a value/{e}", ok, got=str(np.shape(r)))
+            # purity first: it must hold whatever came back
+            ctx.require(f"input untouched/{e}", typed_untouched(unyt, q, ref_buf, dtype, u0, ua) and q.shape == shape, first=repr(np.asarray(q.d).ravel()[:3]))
+            if not ok:
+                continue
+            ctx.require(f"fresh object/{e}", independent(r, q))
+            flat = np.asarray(r if e == "to_value" else r.d).ravel()
+            ctx.observe(e, [float(v) for v in flat[:p]])
+            ctx.require(f"formula/{e}", formula(flat, sb), entry=e, dtype=dt, n=size, first=repr(flat[:3]))
+            if e != "to_value":
+                ctx.require(f"unit/{e}", unit_is(ctx, r.units, ub), got=str(r.units))
+            if cref is None:
+                cref = flat.astype(float)
+            else:
+                ctx.require(f"entry points agree/{e}", bool(np.allclose(flat.astype(float), cref, rtol=2e-6, atol=0.0)))
+        for e in (INPLACE_ENTRIES if inplace_ok else []):
+            c = fresh()
+            r = request(ctx, c, ub, eq, kw, e)
+            ok = r is not None and np.size(r) == size
+            ctx.require(f"returns a value/{e}", ok)
+            if not ok:
+                continue
+            flat = np.asarray(c.d).ravel()
+            ctx.observe(e, [float(v) for v in flat[:p]])
+            ctx.require(f"in-place is in place/{e}", r is c)
+            ctx.require(f"in-place == copy numbers/{e}", cref is not None and bool(np.allclose(flat.astype(float), cref, rtol=2e-6, atol=0.0)), entry=e, n=size)
+            ctx.require(f"in-place == copy unit/{e}", unit_is(ctx, c.units, ub), got=str(c.units))
+            ctx.require(f"formula/{e}", formula(flat, sb), entry=e, dtype=dt, n=size, first=repr(flat[:3]))
+        # there and back, copying and (8-byte buffers) in place
+        q = fresh()
+        u0 = q.units
+        there = q.to_equivalent(ub, eq, **kw)
+        back = there.to_equivalent(ua, eq, **kw)
+        bflat = np.asarray(back.d).ravel()
+        ctx.require("there-and-back", And(_uniform(bflat, p), same_values(eq, da, [y for _, y in _sample(bflat, p)], [float(tile[k]) for k, _ in _sample(bflat, p)], sa, K),
+                                          unit_is(ctx, back.units, ua), back.shape == shape), n=size, first=repr(bflat[:3]))
+        ctx.require("there-and-back: intermediate untouched", bool(np.allclose(np.asarray(there.d).ravel().astype(float), cref, rtol=2e-6, atol=0.0))
+                    and unit_is(ctx, there.units, ub) and independent(back, there))
+        if third:
+            dc = third[0]
+            uc = UNITS[dc][0]
+            sc = float(unyt.Unit(uc).base_value)
+            direct = q.to_equivalent(uc, eq, **kw)
+            via = q.to_equivalent(ub, eq, **kw).to_equivalent(uc, eq, **kw)
+            dflat, vflat = np.asarray(direct.d).ravel().astype(float), np.asarray(via.d).ravel().astype(float)
+            ctx.require("via-intermediate == direct", bool(np.allclose(vflat, dflat, rtol=2e-6, atol=0.0)) and unit_is(ctx, via.units, uc) and unit_is(ctx, direct.units, uc))
+            ctx.require("via-intermediate formula", formula(vflat, sc, da, dc), n=size)
+        ctx.require("input untouched", typed_untouched(unyt, q, ref_buf, dtype, u0, ua) and q.shape == shape, first=repr(np.asarray(q.d).ravel()[:3]))
+        if inplace_ok:
+            c = fresh()
+            c.convert_to_equivalent(ub, eq, **kw)
+            c.convert_to_equivalent(ua, eq, **kw)
+            cflat = np.asarray(c.d).ravel()
+            ctx.require("there-and-back in place", And(_uniform(cflat, p), same_values(eq, da, [y for _, y in _sample(cflat, p)], [float(tile[k]) for k, _ in _sample(cflat, p)], sa, K),
+                                                       unit_is(ctx, c.units, ua)), n=size)
+
+    return Case(f"C09/size/{dt}/n{n}-{form}/{eq}/{da}>{db}/{ua}>{ub}", h,
+                bounds=f"typed buffer of {n} elements (tiling of enumerated values), fixed mu, gamma, table target: enumeration, nothing symbolic",
+                budget_s=600, weight=2 if n > 2**17 else 1)
 
 
 def _cover(A, B):
@@ -979,24 +1294,58 @@ def cases(tier, mods):
     check_names(mods, [XT])
     K = consts(mods)
     k = 0
+    sizes = sorted(set(LADDER) | {m for t in source_sizes() for m in (t, t + 1)})
+    npoints = len(SIZE_DTYPES) * len(sizes)
+    low_bases = []
     for eq, dims in EQ_DIMS.items():
         for da, db in itertools.permutations(dims, 2):
             pairs = _cover(UNITS[da], UNITS[db])
-            for j, dt in enumerate(TYPED_DTYPES[: 5 if quick else None]):
+            for j, dt in enumerate(TYPED_DTYPES[: 6 if quick else None]):
                 # int64 (what a python int becomes) meets every unit of the cover, the other dtypes rotate through it in the quick tier;
-                # thorough: int64, int32, uint8, float32 meet every unit of the cover, the other five rotate
-                for ua, ub in ([pairs[(j + k) % len(pairs)]] if (quick and dt != "int64") or j >= 4 else pairs):
+                # thorough: int64, float64, int32, uint8, float32 meet every unit of the cover, the other five rotate
+                for ua, ub in ([pairs[(j + k) % len(pairs)]] if (quick and dt != "int64") or j >= 5 else pairs):
                     if typed_values(eq, da, float(mods["unyt"].Unit(ua).base_value), dt, K):  # e.g. no uint8 holds gamma >= 100 % squared
-                        # quick: int64 as array and as 0-d quantity, the other dtypes alternate between the two
-                        forms = ("array", "scalar") if not quick or dt == "int64" else (("array", "scalar")[(j + k) % 2],)
-                        out.append(make_dtype_case(eq, da, db, ua, ub, dt, forms))
+                        # quick: int64 and float64 as array and as 0-d quantity, the other dtypes alternate between the two
+                        forms = ("array", "scalar") if not quick or dt in ("int64", "float64") else (("array", "scalar")[(j + k) % 2],)
+                        c = make_dtype_case(eq, da, db, ua, ub, dt, forms)
+                        out.append(c)
+                        if dt in SIZE_DTYPES:
+                            low_bases.append((k, c))
+            # ---- size axis: real typed buffers with n elements
+            for j, (dt, n) in enumerate(itertools.product(SIZE_DTYPES, sizes)):
+                # quick: float64 at the top of the ladder for every ordered pair, and two further (dtype, size) points that rotate
+                # with the pair; thorough: every (dtype, size) point for every ordered pair, units and shape forms rotate
+                if quick and not (dt == "float64" and n == LADDER[-1]) and (j + 5 * k) % npoints not in (0, npoints // 2):
+                    continue
+                ua, ub = pairs[(j + k) % len(pairs)]
+                if typed_values(eq, da, float(mods["unyt"].Unit(ua).base_value), dt, K):
+                    out.append(make_size_case(eq, da, db, ua, ub, dt, n, SIZE_FORMS[(j + k) % len(SIZE_FORMS)] if n > 16 else "1d"))
+            # ---- bases of the lowered-constant configurations: the pair battery on 3 and 2 symbolic elements
+            ua, ub = pairs[k % len(pairs)]
+            low_bases.append((k, make_pair_case(eq, da, db, ua, ub, (3,))))
+            if not quick:
+                low_bases.append((k, make_pair_case(eq, da, db, ua, ub, (2,))))
+                low_bases.append((k, make_symtarget_case(eq, da, db, ua, (3,))))
             # ---- target unit of symbolic scale, symbolic payload
             for j, ua in enumerate(UNITS[da]):
                 if quick and j != k % len(UNITS[da]):
                     continue
                 for shape in ([shapes[k % 2]] if quick else shapes):
                     out.append(make_symtarget_case(eq, da, db, ua, shape))
+                # larger symbolic payloads (every element its own z3 real): 3 and 17 (non-linear formulas: 5) elements, rank 2; quick: one of them per pair
+                for i, shape in enumerate(BIG_SHAPES_NONLINEAR if eq in NONLINEAR else BIG_SHAPES):
+                    if (not quick and j == 0) or (quick and j == k % len(UNITS[da]) and i == k % len(BIG_SHAPES)):
+                        out.append(make_symtarget_case(eq, da, db, ua, shape))
             k += 1
+    # ---- integer constants of the library re-bound to LOW: each one alone and (if there are several) all together
+    thr = size_constants()
+    configs = [[t] for t in thr] + ([thr] if len(thr) > 1 else [])
+    for ci, cfg in enumerate(configs):
+        for k, base in low_bases:
+            # quick: with several constants the single-constant configurations share the bases between them, 'all together' runs all
+            if quick and len(configs) > 1 and ci < len(thr) and (k + ci) % len(thr):
+                continue
+            out.append(lowered_case(base, cfg, thr_tag(cfg)))
     # ---- uncovered requests
     for eq in EQ_DIMS:
         for da, uas in ALL_DIM_UNITS.items():
